@@ -9,7 +9,9 @@ PROPS = [json.loads(l) for l in open(os.path.join(HERE, "properties.jsonl"))]
 TB = ("Trusted base: Lean 4.33 kernel (axioms propext / Classical.choice / Quot.sound only; audited by #print axioms on every run); "
       "the statements in lean/Pyab/Properties and lean/Pyab/Spec; tools/translate.py (tables regenerated from /repo each run); the "
       "correspondence harness. Modelled, tied by correspondence only: CPython semantics of the generated fragment, binary64 "
-      "rounding, MD5, sly runtime loops, pydantic coercions. ")
+      "rounding, MD5, sly runtime loops, pydantic coercions. Shared table obligations re-extracted each run: the package's own modules "
+      "contain no assert/__debug__, no id(), no ambient imports (PurePremise); recompile's digest is a full digest of the exact text "
+      "(EvaluatorPremise); the choice path writes only locals (ChoicePure). ")
 
 CHECKS = {
     # id: (category, technique, text, note, design_ref)
@@ -20,7 +22,7 @@ CHECKS = {
             "error exactly when none is selected; the operator table, repr-rendering and tuple rendering of the real generator are "
             "re-checked by decide on tables regenerated from /repo; model and code are compared stage-wise (tokens, AST, generated text, "
             "outcome) on generated programs with one distinct label per return statement and literal-boundary inputs.",
-            TB + "LR-table completeness is tied by correspondence only.", "6/C02"),
+            TB + "Parser completeness is a theorem for two renderings of every AST (see C07), otherwise tied by correspondence.", "6/C02"),
     "C03": ("proof", "Lean 4 theorems (bisect partition, exact interval rule for integer weights) + bit-exact correspondence",
             "Theorems C03_int_exact / C03_zero_never / C03_selectable / C03_share for every n, integer weight vector and h < 2^32 (exact rule); "
             "C03_float_partition / C03_float_zero_never for ANY non-negative binary64 weights (half-open intervals of the rounded cumulative "
@@ -39,8 +41,11 @@ CHECKS = {
             "C07_lex_complete: every admissible rendering of a token list (all 30 token kinds, identifiers that merely begin with a keyword "
             "included) lexes back to exactly those tokens, for the rule tables regenerated from /repo. For every AST: the emitted body is well indented, the parameter list has no duplicates, compile checks pass under PyNameOK, and the "
             "outcome is a group of the routed statement or the unroutable error; sentences of the reference grammar (keyword-prefixed identifiers, "
-            "shared fields, tuples in tuples, deep nesting, long chains, 64 groups) are compiled and evaluated on the real code and the model.",
-            TB + "Completeness of the code's LR tables for all sentences is by correspondence only; PyNameOK excludes the recorded finding family K1.", "6/C07"),
+            "shared fields, tuples in tuples, deep nesting, long chains, 64 groups) are compiled and evaluated on the real code and the model. "
+            "Parser completeness: C07_parse_complete_canonical and C07_parse_complete_minimal — for every well-formed AST the code's own LR tables "
+            "parse its fully parenthesised AND its minimally parenthesised token rendering back to that AST (operator precedence and associativity "
+            "as resolved in the dumped tables are a theorem); both renderings are also fed to the real lexer+parser.",
+            TB + "Token lists with redundant parentheses beyond the two proved renderings are covered by correspondence; PyNameOK excludes the recorded finding family K1.", "6/C07"),
     "C10": ("proof", "Lean 4 theorems (monotone ramp over the interval rule and over the compiled index) + pairwise correspondence",
             "C10_monotone_ramp: for weight vectors ordered by prefix shares no unit moves to a later-declared group (any n, any h); lifted to the "
             "index the code returns for integer weights; ordered pairs and real unit ids are run on the real code.",
@@ -111,8 +116,9 @@ CHECKS.update({
     "C17": ("proof", "Lean 4 interleaving theorems (all schedules) + effect table regenerated from /repo, by decide + threaded stress",
             "C17_noninterference / C17_publish_atomic(_two_writers) over an abstract shared-memory machine for every schedule and any number of "
             "threads; their hypotheses are discharged against the source: every write effect on the compile/evaluate paths is thread-local, the "
-            "lexer and parser are allocated per call, recompile publishes with one store after building. 2..16 threads at 1 microsecond switch "
-            "interval are a search aid.",
+            "lexer and parser are allocated per call, recompile publishes with one store after building, no process-global setter is called. "
+            "Search aids: systematic one-preemption schedules at line granularity in forked interpreters (harness/sched.py), 2..16 threads at 1 "
+            "microsecond switch interval, long sources compiled concurrently in fresh child interpreters.",
             TB + "Partial: GIL atomicity of one attribute store/load, thread-safety of re/pydantic/exec/hashlib and soundness of the syntactic "
                  "effect extraction are assumptions; free-threaded CPython is out of scope.", "6/C17"),
 })
